@@ -102,7 +102,11 @@ def embed_map(emb, y):
     return np.clip(x_full, np.array(emb["clip_lb"], dtype=float), np.array(emb["clip_ub"], dtype=float))
 
 
-def _encode_scalar(v, ret):
+def _encode_scalar(v, ret, buf=None):
+    if ret in ("arr1_reused", "arr0_reused") and buf is not None:
+        # naive user code returning the same preallocated array on every call (overwritten each time)
+        buf[...] = v
+        return buf
     if ret == "float":
         return float(v)
     if ret == "np64":
@@ -125,9 +129,13 @@ def make_objective(ctx, spec):
     ret = spec.get("ret", "float")
 
     emb = ctx.stmt.get("embed")
+    buf = np.zeros(1) if ret == "arr1_reused" else (np.zeros(()) if ret == "arr0_reused" else None)
+    strict = bool(ctx.stmt.get("strict_dims"))
 
     def fun(x, *args):
         xa = np.array(x, dtype=float)
+        if strict and emb is None and xa.shape != (ctx.stmt["n"],):
+            raise IndexError("index %d is out of bounds for axis 0 with size %d" % (ctx.stmt["n"] - 1, xa.size))
         if emb is not None:
             xa = embed_map(emb, xa)
         xb = xa.tobytes()
@@ -148,7 +156,7 @@ def make_objective(ctx, spec):
         if hook is not None:
             hook(ctx, "obj", idx)
         ctx.world.yield_point(ctx, "obj.ret")
-        return _encode_scalar(v, ret)
+        return _encode_scalar(v, ret, buf)
 
     fun.__name__ = spec.get("name", "fun")
     return fun
@@ -165,12 +173,20 @@ def make_constraint_fun(ctx0, j, spec, shared=False):
     emb = ctx0.stmt.get("embed")
     n_full = len(emb["fixed_idx"]) if emb is not None else ctx0.stmt["n"]
 
+    cbuf = np.zeros(len(comps)) if ret == "ndarray_reused" else None
+    strict = bool(ctx0.stmt.get("strict_dims"))
+
     def con(x, *args):
         ctx = ctx0
         if shared:
             from . import probes
             ctx = probes.cur() or ctx0
         xa = np.array(x, dtype=float)
+        if strict and emb is None and xa.shape != (ctx0.stmt["n"],):
+            # a real user function indexing its argument fails when handed the solver's reduced variables
+            ctx.log({"k": "con", "j": j, "x": xa.tobytes(), "v": [], "f": [], "i": 0, "shape": tuple(np.shape(x)),
+                     "nargs": len(args), "args": [float(a) for a in args], "ncall": ctx.con_calls[j]})
+            raise IndexError("index %d is out of bounds for axis 0 with size %d" % (ctx0.stmt["n"] - 1, xa.size))
         if emb is not None and xa.shape == (ctx.stmt["n"],):
             xa = embed_map(emb, xa)
         xb = xa.tobytes()
@@ -205,6 +221,9 @@ def make_constraint_fun(ctx0, j, spec, shared=False):
             x[...] = -77.0
             ctx.fire("mutate-input")
         ctx.world.yield_point(ctx, "con.ret")
+        if cbuf is not None:
+            cbuf[...] = vals
+            return cbuf
         if ret in ("intlist", "intarray", "intscalar", "bool"):
             # integer-valued replies handed back as Python ints / an integer array / booleans when they are integral
             if all(math.isfinite(v) and float(v).is_integer() and abs(v) < 2 ** 52 for v in vals):
